@@ -2,6 +2,7 @@ package sx
 
 import (
 	"strings"
+	"unicode"
 
 	"verif/engine/smt"
 )
@@ -169,6 +170,46 @@ func registerStrings(p *Program) {
 		unsupported("strings.Split on symbolic separator")
 		return nil
 	})
+	nat("strings.ContainsRune", func(m *Machine, fr *frame, args []Value) Value {
+		s, ok := str(args[0])
+		if !ok {
+			unsupported("strings.ContainsRune on symbolic string")
+		}
+		switch r := args[1].(type) {
+		case int64:
+			return strings.ContainsRune(s, rune(r))
+		case SymInt:
+			c := m.Ctx
+			var cs []*smt.Term
+			for _, ch := range s {
+				cs = append(cs, c.Eq(r.T, c.Int(int64(ch))))
+			}
+			return unTerm(c.Or(cs...))
+		}
+		panic("ContainsRune: bad rune")
+	})
+	asciiClass := func(name string, concrete func(rune) bool, ranges [][2]int64) {
+		nat(name, func(m *Machine, fr *frame, args []Value) Value {
+			switch r := args[0].(type) {
+			case int64:
+				return concrete(rune(r))
+			case SymInt:
+				c := m.Ctx
+				if !m.Branch(c.And(c.Le(c.Int(0), r.T), c.Lt(r.T, c.Int(0x80))), name+"-ascii") {
+					unsupported(name + " of symbolic non-ASCII rune")
+				}
+				var cs []*smt.Term
+				for _, rg := range ranges {
+					cs = append(cs, c.And(c.Le(c.Int(rg[0]), r.T), c.Le(r.T, c.Int(rg[1]))))
+				}
+				return unTerm(c.Or(cs...))
+			}
+			panic(name + ": bad rune")
+		})
+	}
+	asciiClass("unicode.IsLetter", unicode.IsLetter, [][2]int64{{'A', 'Z'}, {'a', 'z'}})
+	asciiClass("unicode.IsDigit", unicode.IsDigit, [][2]int64{{'0', '9'}})
+
 	nat("strings.Join", func(m *Machine, fr *frame, args []Value) Value {
 		sep, ok := str(args[1])
 		if !ok {
@@ -242,6 +283,53 @@ func registerStrings(p *Program) {
 		}
 		unsupported("Replacer.Replace on abstract string")
 		return nil
+	})
+
+	// bytes.Buffer: contents kept in the first slot of the struct
+	bufOf := func(v Value) *[]Value {
+		p := v.(*Value)
+		if p == nil {
+			nilDeref("method on nil *bytes.Buffer")
+		}
+		st := (*p).(Struct)
+		if b, ok := st[0].(*[]Value); ok {
+			return b
+		}
+		b := &[]Value{}
+		if old, ok := st[0].([]Value); ok {
+			*b = append(*b, old...)
+		}
+		st[0] = b
+		return b
+	}
+	nat("(*bytes.Buffer).WriteByte", func(m *Machine, fr *frame, args []Value) Value {
+		b := bufOf(args[0])
+		*b = append(*b, args[1])
+		return Iface{}
+	})
+	nat("(*bytes.Buffer).Write", func(m *Machine, fr *frame, args []Value) Value {
+		b := bufOf(args[0])
+		src := args[1].([]Value)
+		*b = append(*b, src...)
+		return Tuple{int64(len(src)), Iface{}}
+	})
+	nat("(*bytes.Buffer).WriteString", func(m *Machine, fr *frame, args []Value) Value {
+		b := bufOf(args[0])
+		bs, ok := toBStr(args[1])
+		if !ok {
+			unsupported("Buffer.WriteString of abstract string")
+		}
+		*b = append(*b, bs.B...)
+		return Tuple{int64(len(bs.B)), Iface{}}
+	})
+	nat("(*bytes.Buffer).Bytes", func(m *Machine, fr *frame, args []Value) Value {
+		return append([]Value{}, *bufOf(args[0])...)
+	})
+	nat("(*bytes.Buffer).String", func(m *Machine, fr *frame, args []Value) Value {
+		return normBStr(&BStr{B: append([]Value{}, *bufOf(args[0])...)})
+	})
+	nat("(*bytes.Buffer).Len", func(m *Machine, fr *frame, args []Value) Value {
+		return int64(len(*bufOf(args[0])))
 	})
 
 	// bytes
